@@ -1229,7 +1229,7 @@ def r_tal(d):
     import io as _io, itertools, html.parser
     from simpletal import simpleTAL, simpleTALES
     what = d.get("function", "") + " " + d.get("obligation", "")
-    EVIL = '<script>alert(1)</script>&"\'x'
+    EVIL = '&amp;&#65;<script>alert(1)</script>&" onmouseover="alert(2)\'x'
 
     class Canary:
         hits = 0
